@@ -24,7 +24,11 @@ RULE = ('random lattice layouts: d in 1..3, chains and grids up to 5 / 3x3 / 3x2
         'random selections (str, tuples, full, domain name, unknown names, empty), corners in 2D, F(Omega) for plain '
         'layouts; ~15% malformed layouts (axis mismatch, bad ext/axis, index out of range, mixed refs, duplicated / '
         'reused / self connections, foreign patch, mixed dims, single / no patch, 4D, short 3D orientation, repeated '
-        'patch); non-trivial = the request involves at least one interface or raises; distinct by request line')
+        'patch); histories: for ~30% of the valid layouts 1-3 further declarations over the SAME domain / patch / mapping '
+        'names are built and observed right after it in the same process (other orientations, the same joined faces '
+        'paired in another way, exchanged roles, other patch / connection order, one connection less, the first '
+        'declaration again), each one checked against its own declaration; fixed histories (rows, L, 2x2, 1D, 3D; plain '
+        'and mapped); non-trivial = the request involves at least one interface or raises; distinct by request line')
 ASSUMPTIONS = [
     'sympde objects compare by NAME only (filed under C12): all layouts use unique patch and mapping names; the '
     'theorems carry the hypothesis that the patch names (and, for the mirror, the logical names) are pairwise different',
@@ -35,6 +39,10 @@ ASSUMPTIONS = [
     'get_subdomain drops the self-joined faces and two self-connections of one patch collide on the name A|A',
     'Python set/dict iteration order inside get_shared_corners is arbitrary; model and oracle compare the groups as sets',
     'the logical domain of a sub-domain returned by get_subdomain carries no interfaces (observed, modelled, not claimed by the property)',
+    'histories (several declarations over the same names in one process): F(Omega) is observed with one mapping name per '
+    'member of a history, because MappedDomain.__new__ is memoised on (mapping, domain) and domains compare without '
+    'their connectivity (the same F applied to a re-declared Omega returns the first F(Omega): defect of the unchanged '
+    'code, witness HIST_SAME_MAPPING_WITNESS, off)',
 ]
 MIN_NONTRIVIAL = 20
 
@@ -211,6 +219,113 @@ def malform(rng, spec):
         return None
     spec['malformed'] = k
     return k
+
+
+# --------------------------------------------------------------------------- histories
+#
+# A history is a sequence of layouts built and observed one after the other in ONE process (no cache
+# clearing in between) that carry the same domain name, the same patch names (hence objects that
+# compare equal by name) and - for most kinds - the same set of joined faces, but differ in what is
+# declared about them.  Every layout of a history is checked on its own against the same ground truth
+# as any other layout: the result of Domain.join and of every observer is a function of the declared
+# patches and connections, never of what was built before.
+
+HIST_KINDS = ['ornt', 'ornt', 'repair', 'repair', 'roles', 'order', 'subset', 'again']
+
+
+def _reref(spec):
+    """recompute the positional patch references after a change of spec['order']"""
+    order = spec['order']
+    for x in spec['conns']:
+        for y in 'mp':
+            s = x[y]
+            if s['ref'][0] == 'idx':
+                pos = order.index(s['pid'])
+                s['ref'] = ['idx', pos if spec['refmode'] == 'idx' else pos - len(order)]
+
+
+def variant(rng, spec, kind=None):
+    """a layout with the same names as `spec` and another declaration; None if `kind` does not apply"""
+    if spec.get('malformed'):
+        return None
+    v = json.loads(json.dumps({k: x for k, x in spec.items() if k not in ('after', 'hidx', 'hist')}))
+    d, conns = v['d'], v['conns']
+    kind = kind or rng.choice(HIST_KINDS)
+    if kind == 'ornt':
+        # other declared orientation on some of the connections
+        if d == 1 or not conns:
+            return None
+        for c in rng.sample(conns, rng.randint(1, len(conns))):
+            o = c['ornt']
+            if d == 2:
+                c['ornt'] = -1 if o in (None, 1) else rng.choice([1, None])
+            else:
+                o = [1, 1, 1] if o is None else list(o)
+                k = rng.randrange(3)
+                o[k] = -o[k]
+                c['ornt'] = None if o == [1, 1, 1] and rng.random() < 0.5 else o
+    elif kind == 'repair':
+        # the same joined faces paired in another way (plus sides of two connections of one axis exchanged)
+        ax = lambda s: s['axis'] or 0
+        cands = []
+        for i, c1 in enumerate(conns):
+            for c2 in conns[i + 1:]:
+                if not (ax(c1['m']) == ax(c1['p']) == ax(c2['m']) == ax(c2['p'])):
+                    continue
+                new = [frozenset((c1['m']['pid'], c2['p']['pid'])), frozenset((c2['m']['pid'], c1['p']['pid']))]
+                others = [frozenset((x['m']['pid'], x['p']['pid'])) for x in conns if x is not c1 and x is not c2]
+                if any(len(n) == 1 for n in new) or new[0] == new[1] or any(n in others for n in new):
+                    continue
+                cands.append((c1, c2))
+        if not cands:
+            return None
+        c1, c2 = rng.choice(cands)
+        c1['p'], c2['p'] = c2['p'], c1['p']
+        v['nongeo'] = True
+    elif kind == 'roles':
+        if not conns:
+            return None
+        for c in rng.sample(conns, rng.randint(1, len(conns))):
+            c['m'], c['p'] = c['p'], c['m']
+    elif kind == 'order':
+        rng.shuffle(v['order'])
+        rng.shuffle(conns)
+        _reref(v)
+    elif kind == 'subset':
+        if len(conns) < 2:
+            return None
+        conns.pop(rng.randrange(len(conns)))
+    elif kind == 'again':
+        pass
+    else:
+        return None
+    v['hist'] = kind
+    return v
+
+
+def gen_history(rng, spec, length):
+    """variants of `spec` declared one after the other; each one records what was built before it"""
+    out, cur, before = [], spec, [spec]
+    for _ in range(length):
+        v = None
+        for _try in range(4):
+            v = variant(rng, rng.choice([spec, cur]))
+            if v is not None and (v['conns'] != cur['conns'] or v['order'] != cur['order']):
+                break
+            v = None
+        if v is None:
+            break
+        v['hidx'] = len(before)
+        v['after'] = json.loads(json.dumps([{k: x for k, x in s.items() if k != 'after'} for s in before]))
+        out.append(v)
+        before.append(v)
+        cur = v
+    if out and rng.random() < 0.5:
+        v = variant(rng, spec, 'again')
+        v['hidx'] = len(before)
+        v['after'] = json.loads(json.dumps([{k: x for k, x in s.items() if k != 'after'} for s in before]))
+        out.append(v)
+    return out
 
 
 # --------------------------------------------------------------------------- real objects
@@ -438,9 +553,19 @@ def queries(rng, spec, b, D, t, big):
     if d == 2 and multi and len(set(sides)) == len(sides):
         qs.append(('corners', 'C13 corners %s' % L, (lambda: D.get_shared_corners())))
     if multi and all(p['map'] is None for p in spec['patches']) and d <= 3:
-        G = 'G%d' % spec['serial']
+        G = outer_mapping_name(spec)
         qs.append(('map', 'C13 map %s %s' % (dumps(G), L), (lambda: dom_sexp_mapped(get_mapping(t, 'Mapping', G, d)(D), t))))
     return qs
+
+
+def outer_mapping_name(spec):
+    """name of the mapping F applied to the joined plain domain (F(Omega)).  The members of a history get one
+    name each: MappedDomain.__new__ is memoised on (mapping, domain) and domains compare without their
+    connectivity, so the SAME mapping applied to a second declaration of the same names returns the first
+    mapped domain (defect of the unchanged code, see notes/C13.md; witness: HIST_SAME_MAPPING_WITNESS)"""
+    if spec.get('hidx') and not spec.get('same_map'):
+        return 'G%dv%d' % (spec['serial'], spec['hidx'])
+    return 'G%d' % spec['serial']
 
 
 def dom_sexp_mapped(X, t):
@@ -474,6 +599,19 @@ def correspondence(ctx):
         cases.append(('join', 'C13 join ' + layout_sexp(spec), impl, spec))
         for kind, line, thunk in queries(ctx.rng, spec, b, D, t, ctx.thorough):
             cases.append((kind, line, call(thunk), spec))
+        # histories: the same names declared in another way, built and observed right after (same process,
+        # caches as they are); the model is a pure function of the declaration
+        if not spec['malformed'] and ctx.rng.random() < 0.3:
+            for v in gen_history(ctx.rng, spec, ctx.rng.randint(1, 2)):
+                c.count('history:' + v['hist'])
+                b = Build(v)
+                r = call(b.join)
+                D = r[1] if r[0] == 'ok' else None
+                impl = ('ok', dom_sexp(D, t)) if D is not None else r
+                cases.append(('join', 'C13 join ' + layout_sexp(v), impl, v))
+                for kind, line, thunk in queries(ctx.rng, v, b, D, t, ctx.thorough):
+                    if kind != 'gbp':
+                        cases.append((kind, line, call(thunk), v))
         if i % 50 == 49:
             clear_cache()
     # the Lean definition of "the geometric connections of a grid" (Grid.conns, used by grid_connections_ok
@@ -600,7 +738,7 @@ def check_layout(o, spec, t, tag):
     allfaces = [(n, a, e) for n in pn for a in range(d) for e in (-1, 1)]
     dec = declared(spec, b)
     # geometry of the generator itself: declared faces coincide as point sets (modulo a period)
-    for m, p, _ in dec:
+    for m, p, _ in ([] if spec.get('nongeo') else dec):     # nongeo: a declared re-pairing of the same faces (histories)
         fm, fp = face_points(spec, b, m), face_points(spec, b, p)
         per = spec['per'][fm[0]]
         same_plane = fm[1] == fp[1] or (per and abs(fm[1] - fp[1]) == spec['shape'][fm[0]])
@@ -807,7 +945,7 @@ def check_mapped(o, spec, b, D, t, tag):
     o.count('check:mapped-domain')
     det = {'spec': spec}
     d = spec['d']
-    G = 'G%d' % spec['serial']
+    G = outer_mapping_name(spec)
     try:
         X = get_mapping(t, 'Mapping', G, d)(D)
     except Exception as e:
@@ -823,7 +961,7 @@ def check_mapped(o, spec, b, D, t, tag):
            sorted(fkey(x) for x in members(X.boundary, t)),
            sorted((fkey(i.minus), fkey(i.plus), ornt_py(i.ornt)) for i in xfs))
     if got != exp or X.logical_domain is not D:
-        o.fail('mapped-domain:' + tag, 'F(Omega) does not have the structure of Omega face by face and interface by interface',
+        o.fail(('mapped-domain-stale:' if spec.get('same_map') else 'mapped-domain:') + tag, 'F(Omega) does not have the structure of Omega face by face and interface by interface',
                got=got, expected=exp, **det)
 
 
@@ -864,7 +1002,86 @@ def fixed_specs():
     return out
 
 
-def run_checks(o, rng, spec, t, tag, sels=None):
+def fixed_histories():
+    """sequences of declarations over the SAME names (domain, patches, mappings): every member must be answered
+    from its own declaration.  [(stable name, [layout, layout, ...])]"""
+    def lay(d, shape, serial, tok, decls, mapped=False, nongeo=False):
+        ps = []
+        for ix in itertools.product(range(shape[0]), range(shape[1]), range(shape[2])):
+            n = '%s%d%d%dh%d' % ((tok,) + ix + (serial,))
+            ps.append({'lname': n, 'dim': d, 'ix': list(ix), 'lo': list(ix[:d]), 'hi': [x + 1 for x in ix[:d]],
+                       'map': ('Mapping', 'W' + n) if mapped else None})
+        pid = {tuple(p['ix']): i for i, p in enumerate(ps)}
+        cs = []
+        for (mi, ma, me), (pi, pa, pe), o in decls:
+            cs.append({'m': {'ref': ['obj', pid[mi]], 'pid': pid[mi], 'axis': ma, 'ext': me},
+                       'p': {'ref': ['obj', pid[pi]], 'pid': pid[pi], 'axis': pa, 'ext': pe}, 'ornt': o})
+        s = {'d': d, 'shape': list(shape), 'per': [False] * 3, 'patches': ps, 'order': list(range(len(ps))), 'conns': cs,
+             'name': 'OmHist%d' % serial, 'mode': 'mapped' if mapped else 'plain', 'refmode': 'obj', 'serial': 900100 + serial,
+             'malformed': None}
+        if nongeo:
+            s['nongeo'] = True
+        return s
+
+    def seq(name, specs):
+        for k, s in enumerate(specs):
+            if k:
+                s['hist'] = 'fixed'
+                s['hidx'] = k
+                s['after'] = json.loads(json.dumps([{a: x for a, x in q.items() if a != 'after'} for q in specs[:k]]))
+        return (name, specs)
+    P = lambda i, j=0, k=0: (i, j, k)
+    row = lambda n, os_: [((P(i), 0, 1), (P(i + 1), 0, -1), os_[i]) for i in range(n - 1)]
+    out = []
+    # the declared orientation of one connection changes between two declarations of the same row (and back)
+    for mapped in (False, True):
+        sfx = '-mapped' if mapped else ''
+        out.append(seq('hist-row2-ornt' + sfx,
+                       [lay(2, (2, 1, 1), 1 + mapped, 'Ha', row(2, [o]), mapped) for o in (1, -1, None, -1)]))
+        out.append(seq('hist-row3-ornt' + sfx,
+                       [lay(2, (3, 1, 1), 3 + mapped, 'Hb', row(3, os_), mapped) for os_ in ((1, 1), (-1, 1), (1, -1), (1, 1))]))
+        # L shape: one connection per axis
+        L = lambda o0, o1: [((P(0, 0), 0, 1), (P(1, 0), 0, -1), o0), ((P(0, 0), 1, 1), (P(0, 1), 1, -1), o1)]
+        out.append(seq('hist-L-ornt' + sfx, [lay(2, (2, 2, 1), 5 + mapped, 'Hc', L(*os_), mapped) for os_ in ((None, None), (1, -1), (-1, 1))]))
+        # 2x2: the two joined upper faces of the lower row are paired with the lower faces of the upper row crosswise
+        up = lambda x, o: [((P(0, 0), 1, 1), (P(0 + x, 1), 1, -1), o), ((P(1, 0), 1, 1), (P(1 - x, 1), 1, -1), o)]
+        out.append(seq('hist-2x2-repair' + sfx, [lay(2, (2, 2, 1), 7 + mapped, 'Hd', up(0, 1), mapped),
+                                                 lay(2, (2, 2, 1), 7 + mapped, 'Hd', up(1, 1), mapped, nongeo=True),
+                                                 lay(2, (2, 2, 1), 7 + mapped, 'Hd', up(1, -1), mapped, nongeo=True),
+                                                 lay(2, (2, 2, 1), 7 + mapped, 'Hd', up(0, -1), mapped)]))
+    # full 2x2 grid (an interior vertex shared by four corners), orientation of one connection changed, roles exchanged
+    g = lambda o, flip: [((P(0, 0), 0, 1), (P(1, 0), 0, -1), o), ((P(0, 1), 0, 1), (P(1, 1), 0, -1), 1),
+                         ((P(0, 0), 1, 1), (P(0, 1), 1, -1), 1)] + \
+                        [((P(1, 1), 1, -1), (P(1, 0), 1, 1), 1) if flip else ((P(1, 0), 1, 1), (P(1, 1), 1, -1), 1)]
+    out.append(seq('hist-2x2-full', [lay(2, (2, 2, 1), 9, 'He', g(1, False)), lay(2, (2, 2, 1), 9, 'He', g(-1, False)),
+                                     lay(2, (2, 2, 1), 9, 'He', g(1, True))]))
+    # 1D and 3D: other pairing / other orientation triple / one connection less
+    c1 = lambda a, b: [((P(0), 0, 1), (P(a), 0, -1), None), ((P(2), 0, 1), (P(b), 0, -1), None)]
+    out.append(seq('hist-chain1d-repair', [lay(1, (4, 1, 1), 10, 'Hf', c1(1, 3)), lay(1, (4, 1, 1), 10, 'Hf', c1(3, 1), nongeo=True),
+                                           lay(1, (4, 1, 1), 10, 'Hf', c1(1, 3)[:1])]))
+    for mapped in (False, True):
+        out.append(seq('hist-row3-3d' + ('-mapped' if mapped else ''),
+                       [lay(3, (3, 1, 1), 11 + mapped, 'Hg', row(3, os_), mapped)
+                        for os_ in ((None, [1, 1, 1]), ([1, -1, 1], [1, 1, 1]), ([1, 1, -1], [1, -1, -1]))]))
+    if HIST_SAME_MAPPING_WITNESS:
+        w = [lay(2, (2, 1, 1), 20, 'Hw', row(2, [o])) for o in (1, -1)]
+        w[1]['same_map'] = True
+        out.append(seq('hist-same-mapping', w))
+    return out
+
+
+# F = Mapping(..); F(Omega1); F(Omega2) with Omega2 = the names and joined faces of Omega1 declared with another
+# orientation: the unchanged code answers F(Omega1) again (MappedDomain.__new__ is memoised).  The witness reports
+# it under the key 'mapped-domain-stale:fixed:hist-same-mapping:1'; it stays off until that key is entered as a
+# known finding (a failure outside the known findings makes the check fail).
+HIST_SAME_MAPPING_WITNESS = False
+
+
+def run_checks(o, rng, spec, t, tag, sels=None, prelude=True):
+    if prelude:
+        # a layout of a history: first build and observe what was built before it (replay, failing-input search)
+        for k, s in enumerate(spec.get('after') or []):
+            run_checks(o, rng, s, t, '%s:pre%d' % (tag, k), prelude=False)
     D, b = check_layout(o, spec, t, tag)
     check_lookup(o, spec, b, D, t, tag)
     if D is None or not isinstance(D.interior, t['Union']):
@@ -883,8 +1100,9 @@ def run_checks(o, rng, spec, t, tag, sels=None):
 
 
 def tag_of(spec):
-    return 'd%d:%s:%s:%s:n%d:c%d:s%d' % (spec['d'], 'x'.join(map(str, spec['shape'])), spec['mode'], spec['refmode'],
-                                         len(spec['order']), len(spec['conns']), spec['serial'])
+    return 'd%d:%s:%s:%s:n%d:c%d:s%d%s' % (spec['d'], 'x'.join(map(str, spec['shape'])), spec['mode'], spec['refmode'],
+                                           len(spec['order']), len(spec['conns']), spec['serial'],
+                                           ':after%d:%s' % (len(spec.get('after') or []), spec['hist']) if spec.get('hist') else '')
 
 
 def oracle(ctx, factor, seeds):
@@ -894,6 +1112,11 @@ def oracle(ctx, factor, seeds):
     for name, spec, sels in fixed_specs():
         o.evaluations += 1
         run_checks(o, ctx.rng, spec, t, 'fixed:' + name, sels or None)
+    for name, specs in fixed_histories():
+        for k, spec in enumerate(specs):
+            o.evaluations += 1
+            o.count('history:fixed')
+            run_checks(o, ctx.rng, spec, t, 'fixed:%s:%d' % (name, k), prelude=False)
     # layouts on which the correspondence disagreed are examined first (failing-input search)
     if seeds:
         for k, spec in enumerate(_DISAGREE_SPECS[:40]):
@@ -909,6 +1132,11 @@ def oracle(ctx, factor, seeds):
         o.evaluations += 1
         o.count('layout:d%d:%s' % (spec['d'], spec['mode']))
         run_checks(o, ctx.rng, spec, t, tag_of(spec))
+        if ctx.rng.random() < 0.35:
+            for v in gen_history(ctx.rng, spec, ctx.rng.randint(1, 3)):
+                o.evaluations += 1
+                o.count('history:' + v['hist'])
+                run_checks(o, ctx.rng, v, t, tag_of(v), prelude=False)
         if len(o.samples) < 4:
             o.samples.append({'layout': tag_of(spec), 'connections': len(spec['conns'])})
         if i % 50 == 49:
